@@ -142,7 +142,8 @@ func oracle(c Case) vkit.Outcome {
 		return fx.f.Do(srvfix.Request{Method: m, Path: p, Header: fx.hdr, Body: b})
 	}
 	filter := fmt.Sprintf("?filter=EQ(k,%d)", key)
-	defer do("DELETE", rowsPath+filter, "")
+	// rows are left in place (every case uses a fresh key): one request less
+	// per case, and the key filter keeps reads exact
 
 	var w *srvfix.Response
 	var sent string
